@@ -2,6 +2,10 @@ from propsdef import KERNEL, CORR, HARNESS
 
 PROP = {
         "obligations": [
+        "Xt.Props.C18.msgpack_frame_recover",
+        "Xt.Props.Json.json_frame_recover",
+        "Xt.Props.Json.json_split_sources",
+        "Xt.Props.Json.json_write_no_newline",
             # chunker (src/yaml/chunker.rs) over an arbitrary parser trace
             "chunker_partition", "chunker_lag_one", "chunker_buffer_bounded", "cutAfter_snoc", "chunker_readahead_independent",
             "no_panic_chunker", "no_panic_chunker_only_utf8", "chunker_panics_without_hypotheses",
